@@ -470,8 +470,13 @@ func (c *channel) reconnect(maxRetries float64) {
 			return
 		}
 		c.cancelStream()
+		gen := c.streamGen
 		c.streamMut.Unlock()
 		c.setLastErr(err)
+		// The broken stream may itself be a replacement (made on behalf of a
+		// request) that broke before the receiver got to read from it; the
+		// requests sent on it will never be answered.
+		c.cancelPendingMsgs(gen)
 		if retries >= maxRetries && maxRetries > 0 {
 			// streamBroken is still set, unless someone else has re-created the stream
 			return
